@@ -117,7 +117,12 @@ def run_case(case, res):
     rng = random.Random(case["seed"])
     cfg = dimwise.gen_config(rng, case.get("tier", "quick"))
     d = cfg["d"]
-    f = hooks.VFunction([hooks.comp_hash(case["seed"]), hooks.comp_smooth(case["seed"], d)])
+    if rng.random() < 0.12:
+        # an integer-valued function (labels / counts): eval() returns an integer-typed array
+        f = hooks.VFunction([hooks.comp_int_hash(case["seed"]), hooks.comp_int_hash(case["seed"] + 1)], integer_valued=True)
+        res.count("integer_valued_function")
+    else:
+        f = hooks.VFunction([hooks.comp_hash(case["seed"]), hooks.comp_smooth(case["seed"], d)])
     err = hooks.RandErr(cfg["errseed"], cfg["profile"], d, cfg["a"], cfg["b"])
     obs = Obs(res, f, cfg, err)
     obs.quiet = rng.random() < 0.3
